@@ -1,6 +1,6 @@
 use core::convert::{From, TryFrom};
 
-use crate::{base::no_overlap, TwoFloat, TwoFloatError};
+use crate::{arithmetic::fast_two_sum, base::no_overlap, TwoFloat, TwoFloatError};
 
 macro_rules! from_conversion {
     (|$source_i:ident : TwoFloat| -> $dest:tt $code:block) => {
@@ -123,7 +123,8 @@ macro_rules! bigint_convert {
                     -((a as $type - value) as f64)
                 };
 
-                Self { hi: a, lo: b }
+                // `b` is rounded, so it can land on exactly half an ulp of an odd `a`
+                fast_two_sum(a, b)
             }
         }
 
